@@ -157,6 +157,38 @@ func checkC03(c *km.Ctx) {
 		}
 		cases, isCall := s.ResultCases(k, v)
 		if !isCall || len(cases) == 0 {
+			// the value may be bounded by (or be) the result of a helper that establishes the constant bounds itself:
+			// v <= w and every compatible return of w's helper is <= 24 h; w <= v and every return is >= 0
+			if !cap24 {
+				for _, w := range km.UpperChain(k, v) {
+					if cs, ok := s.ResultCases(k, w); ok && len(cs) > 0 && w != km.Unwrap(v) {
+						all := true
+						for _, rc := range cs {
+							if x, _, _ := bounds(rc.K, rc.Fn, rc.Val, depth+1); !x {
+								all = false
+							}
+						}
+						if all {
+							cap24 = true
+						}
+					}
+				}
+			}
+			if !nonNeg {
+				for _, w := range km.LowerChain(k, v) {
+					if cs, ok := s.ResultCases(k, w); ok && len(cs) > 0 && w != km.Unwrap(v) {
+						all := true
+						for _, rc := range cs {
+							if _, _, z := bounds(rc.K, rc.Fn, rc.Val, depth+1); !z {
+								all = false
+							}
+						}
+						if all {
+							nonNeg = true
+						}
+					}
+				}
+			}
 			return cap24, capAge, nonNeg
 		}
 		a24, aAge, aNN := true, true, true
